@@ -3155,9 +3155,9 @@ def logical_not(x: ArrayOrScalar) -> Array | bool:
     assert isinstance(x, Array)
 
     from pytato.utils import with_indices_for_broadcasted_shape
-    return IndexLambda(expr=with_indices_for_broadcasted_shape(prim.Variable("_in0"),
-                                                          x.shape,
-                                                          x.shape),
+    return IndexLambda(expr=prim.LogicalNot(
+                                with_indices_for_broadcasted_shape(
+                                    prim.Variable("_in0"), x.shape, x.shape)),
                        shape=x.shape,
                        dtype=np.dtype(np.bool_),
                        bindings=constantdict({"_in0": x}),
